@@ -23,6 +23,9 @@ func RunC11(r *sim.Run) {
 	}
 	certs := []*certSet{genCertSet("one"), genCertSet("two")}
 	namePool := []string{"One.Example", "two.example", "SHARED.example", "shared.example", "x.example"}
+	for _, h := range namePool {
+		w.Hosts = append(w.Hosts, strings.ToLower(h)) // resolved in every snapshot (duplicates are harmless)
+	}
 	nCl := t.Range(1, 3)
 	names := []string{"alpha", "beta", "gamma"}[:nCl]
 	specs := map[string]*cspec{}
@@ -49,7 +52,7 @@ func RunC11(r *sim.Run) {
 	w.Boundary()
 
 	nSteps := t.Range(6, 40)
-	versions, rejected, lagWrites, deletes := 0, 0, 0, 0
+	versions, rejected, lagWrites, deletes, bursts := 0, 0, 0, 0, 0
 	for step := 0; step < nSteps; step++ {
 		switch t.Pick([]int{14, 2, 2, 5, 1}) {
 		case 0: // new version of one cluster
@@ -74,6 +77,10 @@ func RunC11(r *sim.Run) {
 			if !back {
 				desc = c.mutate(t.Draw, w.EndpointsOf(n), namePool, len(certs))
 			}
+			// one time in three two versions are written back to back: nothing settles
+			// between them, the controller finds both events waiting
+			burst := t.Draw(3) == 0
+			w.NoWait = burst
 			if err := w.Apply(c.object(certs)); err != nil {
 				rejected++
 				r.Logf("%s: %s REJECTED %s", n, desc, firstLine(err.Error()))
@@ -88,7 +95,23 @@ func RunC11(r *sim.Run) {
 				}
 				specs[n] = c
 				r.Logf("%s v%d: %s", n, w.versions[n], desc)
+				if burst {
+					c2 := c.clone()
+					desc2 := c2.mutate(t.Draw, w.EndpointsOf(n), namePool, len(certs))
+					if err := w.Apply(c2.object(certs)); err != nil {
+						rejected++
+						r.Logf("%s: (at once) %s REJECTED %s", n, desc2, firstLine(err.Error()))
+					} else {
+						versions++
+						bursts++
+						hist[n].accepted(specs[n], c2)
+						specs[n] = c2
+						r.Logf("%s v%d (at once): %s", n, w.versions[n], desc2)
+					}
+				}
 			}
+			w.NoWait = false
+			w.Quiesce()
 		case 1: // admission's lister lags / catches up
 			if w.AdmitGate.Held() {
 				w.AdmitGate.Open()
@@ -157,6 +180,30 @@ func RunC11(r *sim.Run) {
 		return
 	}
 
+	// Known finding F-C10-1 (C10's, circular conflict): a cluster that still holds a name
+	// its latest object gave up has had its updates refused because of a conflict; it and
+	// every cluster whose latest object wants that name have not been brought to their
+	// latest objects at all. C10 reports that state; it is not judged a second time here.
+	if snaps := w.Snaps(); len(snaps) > 0 {
+		last := snaps[len(snaps)-1]
+		for h, d := range last.Resolve {
+			if d == "" || !live[d] {
+				continue
+			}
+			claims := false
+			for _, o := range claimed[h] {
+				if o == d {
+					claims = true
+				}
+			}
+			if !claims {
+				r.Probe("stale_name_claim_F-C10-1_skipped")
+				r.Nontrivial = false
+				return
+			}
+		}
+	}
+
 	twin := w.Twin(w.LatestObjects())
 	for i := 0; i < 3; i++ {
 		w.Advance(6 * time.Second)
@@ -211,6 +258,7 @@ func RunC11(r *sim.Run) {
 	}
 	r.ProbeN("versions_applied", versions)
 	r.ProbeN("versions_rejected_by_admission", rejected)
+	r.ProbeN("versions_written_back_to_back", bursts)
 	r.ProbeN("versions_written_while_admission_lagged", lagWrites)
 	r.ProbeN("deletes", deletes)
 	r.ProbeN("aspect_taken_back_to_earlier_value", takenBack)
